@@ -22,6 +22,23 @@ pub struct SessionPoolConfig {
     pub min_idle_sessions: usize,
 }
 
+impl SessionPoolConfig {
+    /// Check that the settings can work together.
+    ///
+    /// `check_interval` is also the keep-alive probe interval of every session and `idle_timeout` its keep-alive
+    /// timeout: when a probe is sent, the peer's last answer is about one interval old, so a timeout shorter than the
+    /// interval would close sessions whose peer answers every probe.
+    pub fn validate(&self) -> crate::util::Result<()> {
+        if self.idle_timeout < self.check_interval {
+            return Err(crate::util::AnyTlsError::Config(format!(
+                "idle session timeout ({:?}) must not be shorter than the idle session check interval ({:?})",
+                self.idle_timeout, self.check_interval
+            )));
+        }
+        Ok(())
+    }
+}
+
 impl Default for SessionPoolConfig {
     fn default() -> Self {
         Self {
